@@ -78,7 +78,7 @@ CLAIMED = {
          "three regular expressions is validated by the correspondence, not proved against std::regex.",
          "Coq proof (length bound of regex subjects for all inputs) + isolated-process differential execution with stack measurement"),
  "C12": ("proof", "Theorems no_silent_wrap_uri / no_silent_wrap_pair (for EVERY byte string accepted, a service text that is numeric in strtoul's syntax has a value in 0..65535 — after the colon, as "
-         "scheme, as pair argument with sign/blanks), pair_service_unchanged, uri_host_port_is_pair / uri_bracket_port_is_pair (spelling equivalence: 'host:port' and '[h]:port' hand the same host and service to the resolver as the pair constructor, for every plain host and in-range port text), text_round_trip_v4 (to_string's in-place composition yields 'host:serv' and parsing it gives host and service back), port_of_encode4/6. Correspondence against the real resolver: literals x ports in every documented spelling, out-of-range "
+         "scheme, as pair argument with sign/blanks), pair_service_unchanged, uri_host_port_is_pair / uri_bracket_port_is_pair (spelling equivalence: 'host:port' and '[h]:port' hand the same host and service to the resolver as the pair constructor, for every plain host and in-range port text), uri_scheme_host_is_pair ('name://host'), text_round_trip_v4 / text_round_trip_v6 (to_string's in-place composition yields 'host:serv' / '[host]:serv' and parsing it gives host and service back), port_of_encode4/6. Correspondence against the real resolver: literals x ports in every documented spelling, out-of-range "
          "numerics in every position; getaddrinfo arguments and to_string composition compared with the model; accessors, canonical host text, re-parse equality monitored.", "5 C12",
          TB + "glibc's numeric-service rule (strtoul syntax, value mod 2^16) and canonical host text are trusted/observed. Spelling-equivalence is validated by the correspondence (model dissector == real "
          "constructor on every generated spelling), further spellings (schemes, service names) and the text round-trip through glibc's canonical form are validated by the correspondence only.",
